@@ -27,34 +27,60 @@ func bodyLogsError(info *types.Info, n ast.Node) *ast.CallExpr {
 	return out
 }
 
-// guardedError finds an if statement (or case clause) in fd whose condition satisfies pred and
-// whose body logs an error.
+// guardedError finds an error-logging call in fd that is reached only under a condition
+// satisfying pred. The conditions are the path facts of the call (enclosing if/else arms, switch
+// cases, earlier guards that leave the block, short-circuit operands), each offered to pred in its
+// positive surface form: `c`, `!c`, the comparison with its operator flipped when the fact is a
+// negated comparison, and the label alone for `switch tag { case label: }`.
 func guardedError(pk *packages.Package, fd *ast.FuncDecl, pred func(cond ast.Expr) bool) *ast.CallExpr {
 	info := pk.TypesInfo
-	var out *ast.CallExpr
-	ast.Inspect(fd.Body, func(n ast.Node) bool {
-		if out != nil {
-			return false
-		}
-		switch x := n.(type) {
-		case *ast.IfStmt:
-			if pred(ast.Unparen(x.Cond)) {
-				out = bodyLogsError(info, x.Body)
-			}
-		case *ast.CaseClause:
-			for _, l := range x.List {
-				if pred(ast.Unparen(l)) {
-					for _, s := range x.Body {
-						if out == nil {
-							out = bodyLogsError(info, s)
-						}
-					}
-				}
+	par := parents(fd)
+	var calls []*ast.CallExpr
+	ast.Inspect(fd.Body, func(m ast.Node) bool {
+		if call, ok := m.(*ast.CallExpr); ok {
+			fn := calleeFunc(info, call)
+			if isErrLoggerMethod(fn) && (fn.Name() == "Errorf" || fn.Name() == "GeneralError" || fn.Name() == "GeneralErrorf" || fn.Name() == "Errorpf") {
+				calls = append(calls, call)
 			}
 		}
 		return true
 	})
-	return out
+	for _, call := range calls {
+		// the raw (unsplit) conditions first: some predicates look at a whole conjunction
+		for q, child := par[ast.Node(call)], ast.Node(call); q != nil; child, q = q, par[q] {
+			if ifs, ok := q.(*ast.IfStmt); ok && child == ast.Node(ifs.Body) && pred(ast.Unparen(ifs.Cond)) {
+				return call
+			}
+			if cc, ok := q.(*ast.CaseClause); ok {
+				for _, l := range cc.List {
+					if pred(ast.Unparen(l)) {
+						return call
+					}
+				}
+			}
+		}
+		for _, f := range pathConds(info, par, call) {
+			var cands []ast.Expr
+			if !f.neg {
+				cands = append(cands, f.e)
+			} else {
+				cands = append(cands, &ast.UnaryExpr{Op: token.NOT, X: f.e})
+			}
+			if l, op, r, ok := cmpFact(f.e, !f.neg); ok {
+				be := &ast.BinaryExpr{X: l, Op: op, Y: r}
+				cands = append(cands, be)
+				if orig, isBE := ast.Unparen(f.e).(*ast.BinaryExpr); isBE && orig.OpPos == token.NoPos && !f.neg {
+					cands = append(cands, r) // switch tag { case label: }
+				}
+			}
+			for _, cnd := range cands {
+				if pred(ast.Unparen(cnd)) {
+					return call
+				}
+			}
+		}
+	}
+	return nil
 }
 
 func isNilCmp(e ast.Expr, op token.Token) (ast.Expr, bool) {
@@ -71,15 +97,112 @@ func isNilCmp(e ast.Expr, op token.Token) (ast.Expr, bool) {
 	return nil, false
 }
 
-func isNotOK(e ast.Expr) bool {
+// commaOK classifies the boolean results of comma-ok forms in fn: the object of `ok` in
+// `v, ok := m[k]` maps to "index" and in `v, ok := x.(T)` to "assert".
+func commaOK(info *types.Info, fn ast.Node) map[types.Object]string {
+	out := map[types.Object]string{}
+	ast.Inspect(fn, func(n ast.Node) bool {
+		as, ok := n.(*ast.AssignStmt)
+		if !ok || len(as.Lhs) != 2 || len(as.Rhs) != 1 {
+			return true
+		}
+		o := usesObj(info, as.Lhs[1])
+		if o == nil {
+			return true
+		}
+		switch ast.Unparen(as.Rhs[0]).(type) {
+		case *ast.IndexExpr:
+			out[o] = "index"
+		case *ast.TypeAssertExpr:
+			out[o] = "assert"
+		}
+		return true
+	})
+	return out
+}
+
+// isNotOK: the condition is the negation of a type assertion's ok result.
+func isNotOK(info *types.Info, fn ast.Node, e ast.Expr) bool {
 	u, ok := e.(*ast.UnaryExpr)
-	return ok && u.Op == token.NOT && exprString(u.X) == "ok"
+	if !ok || u.Op != token.NOT {
+		return false
+	}
+	o := usesObj(info, u.X)
+	return o != nil && commaOK(info, fn)[o] == "assert"
+}
+
+// actionFlags finds the boolean locals that record "an action of this kind was seen": the ones
+// set to true in the case arm of the named mode.ActionType constant.
+func actionFlags(info *types.Info, fn ast.Node) map[string]types.Object {
+	out := map[string]types.Object{}
+	ast.Inspect(fn, func(n ast.Node) bool {
+		cc, ok := n.(*ast.CaseClause)
+		if !ok {
+			return true
+		}
+		for _, l := range cc.List {
+			k := usesObj(info, l)
+			if _, isConst := k.(*types.Const); !isConst {
+				continue
+			}
+			for _, st := range cc.Body {
+				ast.Inspect(st, func(m ast.Node) bool {
+					if as, ok := m.(*ast.AssignStmt); ok && len(as.Lhs) == 1 && len(as.Rhs) == 1 && as.Tok == token.ASSIGN {
+						if tv, ok := info.Types[as.Rhs[0]]; ok && tv.Value != nil && tv.Value.String() == "true" {
+							if o := usesObj(info, as.Lhs[0]); o != nil {
+								out[k.Name()] = o
+							}
+						}
+					}
+					return true
+				})
+			}
+		}
+		return true
+	})
+	return out
+}
+
+// termTypeNotSimple: some conjunct/disjunct of e is `<x>.<field>.Type != ParserTermSimple`.
+func termTypeNotSimple(info *types.Info, e ast.Expr, field string) bool {
+	found := false
+	ast.Inspect(e, func(n ast.Node) bool {
+		be, ok := n.(*ast.BinaryExpr)
+		if !ok || be.Op != token.NEQ {
+			return true
+		}
+		for _, pr := range [][2]ast.Expr{{be.X, be.Y}, {be.Y, be.X}} {
+			k := usesObj(info, pr[1])
+			if k == nil || k.Name() != "ParserTermSimple" || !isField(info, pr[0], "internal/ast", "ParserTerm", "Type") {
+				continue
+			}
+			if sel, ok := ast.Unparen(pr[0]).(*ast.SelectorExpr); ok && isField(info, sel.X, "internal/ast", "ParserTerm", field) {
+				found = true
+			}
+		}
+		return true
+	})
+	return found
+}
+
+// resultOfCall: x is (a local holding) the result of a call to a method/function of that name.
+func resultOfCall(info *types.Info, fn ast.Node, x ast.Expr, name string) bool {
+	def := ast.Unparen(resolveVia(info, localDefs(info, fn), x))
+	if ta, ok := def.(*ast.TypeAssertExpr); ok {
+		def = ast.Unparen(resolveVia(info, localDefs(info, fn), ta.X))
+	}
+	call, ok := def.(*ast.CallExpr)
+	if !ok {
+		return false
+	}
+	f := calleeFunc(info, call)
+	return f != nil && f.Name() == name
 }
 
 type wfSite struct {
 	constraint string
 	fn         string // "Type.Method" in internal/ast
-	pred       func(info *types.Info, cond ast.Expr) bool
+	pred       func(info *types.Info, fn ast.Node, cond ast.Expr) bool
 	what       string
 }
 
@@ -93,14 +216,36 @@ func ruleWF1(c *Ctx) {
 	}
 	info := pk.TypesInfo
 	sites := []wfSite{
-		{"names-unique", "Context.RegisterName", func(_ *types.Info, e ast.Expr) bool { return exprString(e) == "alreadyExists" || strings.HasSuffix(exprString(e), "Exists") || exprString(e) == "ok" }, "a name already in the single name table is reported"},
-		{"undefined-reference(parser term)", "ParserTerm.preCheck", func(_ *types.Info, e ast.Expr) bool { _, ok := isNilCmp(e, token.EQL); return ok }, "an undefined name in a production is reported"},
-		{"unknown-literal(parser term)", "ParserTerm.preCheck", func(_ *types.Info, e ast.Expr) bool { return exprString(e) == "nil" }, "a literal that is no token's alias is reported"},
-		{"ambiguous-literal(parser term)", "ParserTerm.preCheck", func(i *types.Info, e ast.Expr) bool {
-			o := usesObj(i, e)
-			return o != nil && o.Name() == "AmbiguousAlias"
+		{"names-unique", "Context.RegisterName", func(i *types.Info, fn ast.Node, e ast.Expr) bool {
+			// the presence result of looking the name up in the name table
+			if o := usesObj(i, e); o != nil && commaOK(i, fn)[o] == "index" {
+				return true
+			}
+			_, nn := isNilCmp(e, token.NEQ)
+			return nn
+		}, "a name already in the single name table is reported"},
+		{"undefined-reference(parser term)", "ParserTerm.preCheck", func(i *types.Info, fn ast.Node, e ast.Expr) bool {
+			x, ok := isNilCmp(e, token.EQL)
+			return ok && resultOfCall(i, fn, x, "Lookup")
+		}, "an undefined name in a production is reported"},
+		{"unknown-literal(parser term)", "ParserTerm.preCheck", func(i *types.Info, fn ast.Node, e ast.Expr) bool {
+			x, ok := isNilCmp(e, token.EQL)
+			return ok && resultOfCall(i, fn, x, "LookupAlias")
+		}, "a literal that is no token's alias is reported"},
+		{"ambiguous-literal(parser term)", "ParserTerm.preCheck", func(i *types.Info, _ ast.Node, e ast.Expr) bool {
+			if o := usesObj(i, e); o != nil && o.Name() == "AmbiguousAlias" {
+				return true
+			}
+			if be, ok := e.(*ast.BinaryExpr); ok && be.Op == token.EQL {
+				for _, side := range []ast.Expr{be.X, be.Y} {
+					if o := usesObj(i, side); o != nil && o.Name() == "AmbiguousAlias" {
+						return true
+					}
+				}
+			}
+			return false
 		}, "a literal shared by several tokens is reported"},
-		{"empty-literal(parser term)", "ParserTerm.preCheck", func(i *types.Info, e ast.Expr) bool {
+		{"empty-literal(parser term)", "ParserTerm.preCheck", func(i *types.Info, _ ast.Node, e ast.Expr) bool {
 			be, ok := e.(*ast.BinaryExpr)
 			if !ok || be.Op != token.EQL || !isField(i, be.X, "internal/ast", "ParserTerm", "Type") {
 				return false
@@ -108,31 +253,44 @@ func ruleWF1(c *Ctx) {
 			o := usesObj(i, be.Y)
 			return o != nil && o.Name() == "ParserTermSimple"
 		}, "an empty literal in a production is reported"},
-		{"undefined-reference(macro ref)", "LexerTermRef.RunPass", func(_ *types.Info, e ast.Expr) bool { _, ok := isNilCmp(e, token.EQL); return ok }, "an undefined macro name is reported"},
-		{"wrong-kind(macro ref)", "LexerTermRef.RunPass", func(_ *types.Info, e ast.Expr) bool { return isNotOK(e) }, "a reference to something that is not a macro is reported"},
-		{"undefined-reference(@emit)", "ActionEmit.RunPass", func(_ *types.Info, e ast.Expr) bool { _, ok := isNilCmp(e, token.EQL); return ok }, "@emit of an undefined name is reported"},
-		{"wrong-kind(@emit)", "ActionEmit.RunPass", func(_ *types.Info, e ast.Expr) bool { return isNotOK(e) }, "@emit of something that is not a token is reported"},
-		{"undefined-mode(@push_mode)", "ActionPushMode.RunPass", func(_ *types.Info, e ast.Expr) bool {
+		{"undefined-reference(macro ref)", "LexerTermRef.RunPass", func(_ *types.Info, _ ast.Node, e ast.Expr) bool { _, ok := isNilCmp(e, token.EQL); return ok }, "an undefined macro name is reported"},
+		{"wrong-kind(macro ref)", "LexerTermRef.RunPass", func(i *types.Info, fn ast.Node, e ast.Expr) bool { return isNotOK(i, fn, e) }, "a reference to something that is not a macro is reported"},
+		{"undefined-reference(@emit)", "ActionEmit.RunPass", func(_ *types.Info, _ ast.Node, e ast.Expr) bool { _, ok := isNilCmp(e, token.EQL); return ok }, "@emit of an undefined name is reported"},
+		{"wrong-kind(@emit)", "ActionEmit.RunPass", func(i *types.Info, fn ast.Node, e ast.Expr) bool { return isNotOK(i, fn, e) }, "@emit of something that is not a token is reported"},
+		{"undefined-mode(@push_mode)", "ActionPushMode.RunPass", func(_ *types.Info, _ ast.Node, e ast.Expr) bool {
 			x, ok := isNilCmp(e, token.EQL)
 			return ok && strings.Contains(exprString(x), "LexerModes[")
 		}, "@push_mode of an undefined mode is reported"},
-		{"macro-cycle", "MacroRule.NFACons", func(i *types.Info, e ast.Expr) bool { return isField(i, e, "internal/ast", "MacroRule", "cycleDetect") }, "re-entering a macro that is being expanded is reported"},
-		{"start-redefined", "ParserRule.RunPass", func(i *types.Info, e ast.Expr) bool {
+		{"macro-cycle", "MacroRule.NFACons", func(i *types.Info, _ ast.Node, e ast.Expr) bool { return isField(i, e, "internal/ast", "MacroRule", "cycleDetect") }, "re-entering a macro that is being expanded is reported"},
+		{"start-redefined", "ParserRule.RunPass", func(i *types.Info, fn ast.Node, e ast.Expr) bool {
 			x, ok := isNilCmp(e, token.NEQ)
-			return ok && isField(i, x, "internal/ast", "Context", "StartParserRule")
+			return ok && isField(i, resolveVia(i, localDefs(i, fn), x), "internal/ast", "Context", "StartParserRule")
 		}, "a second @start is reported"},
-		{"start-missing", "Spec.RunPass", func(i *types.Info, e ast.Expr) bool {
+		{"start-missing", "Spec.RunPass", func(i *types.Info, fn ast.Node, e ast.Expr) bool {
 			x, ok := isNilCmp(e, token.EQL)
-			return ok && isField(i, x, "internal/ast", "Context", "StartParserRule")
+			return ok && isField(i, resolveVia(i, localDefs(i, fn), x), "internal/ast", "Context", "StartParserRule")
 		}, "a missing @start is reported"},
-		{"discard-on-token", "TokenRule.RunPass", func(i *types.Info, e ast.Expr) bool { o := usesObj(i, e); return o != nil && o.Name() == "ActionDiscard" }, "@discard on a token is reported"},
-		{"emit-on-token", "TokenRule.RunPass", func(i *types.Info, e ast.Expr) bool { o := usesObj(i, e); return o != nil && o.Name() == "ActionAccept" }, "@emit on a token is reported"},
-		{"two-discards-on-fragment", "FragRule.RunPass", func(_ *types.Info, e ast.Expr) bool { return exprString(e) == "hasDiscard" }, "a second @discard on a fragment is reported"},
-		{"two-emits-on-fragment", "FragRule.RunPass", func(_ *types.Info, e ast.Expr) bool { return exprString(e) == "hasEmit" }, "a second @emit on a fragment is reported"},
-		{"discard-and-emit-on-fragment", "FragRule.RunPass", func(_ *types.Info, e ast.Expr) bool {
-			return exprString(e) == "hasDiscard && hasEmit" || exprString(e) == "hasEmit && hasDiscard"
+		{"discard-on-token", "TokenRule.RunPass", func(i *types.Info, _ ast.Node, e ast.Expr) bool { o := usesObj(i, e); return o != nil && o.Name() == "ActionDiscard" }, "@discard on a token is reported"},
+		{"emit-on-token", "TokenRule.RunPass", func(i *types.Info, _ ast.Node, e ast.Expr) bool { o := usesObj(i, e); return o != nil && o.Name() == "ActionAccept" }, "@emit on a token is reported"},
+		{"two-discards-on-fragment", "FragRule.RunPass", func(i *types.Info, fn ast.Node, e ast.Expr) bool {
+			o := usesObj(i, e)
+			return o != nil && actionFlags(i, fn)["ActionDiscard"] == o
+		}, "a second @discard on a fragment is reported"},
+		{"two-emits-on-fragment", "FragRule.RunPass", func(i *types.Info, fn ast.Node, e ast.Expr) bool {
+			o := usesObj(i, e)
+			return o != nil && actionFlags(i, fn)["ActionAccept"] == o
+		}, "a second @emit on a fragment is reported"},
+		{"discard-and-emit-on-fragment", "FragRule.RunPass", func(i *types.Info, fn ast.Node, e ast.Expr) bool {
+			be, ok := e.(*ast.BinaryExpr)
+			if !ok || be.Op != token.LAND {
+				return false
+			}
+			fl := actionFlags(i, fn)
+			d, a := fl["ActionDiscard"], fl["ActionAccept"]
+			x, y := usesObj(i, be.X), usesObj(i, be.Y)
+			return d != nil && a != nil && ((x == d && y == a) || (x == a && y == d))
 		}, "@discard together with @emit is reported"},
-		{"empty-literal(lexer)", "LexerTermLiteral.RunPass", func(i *types.Info, e ast.Expr) bool {
+		{"empty-literal(lexer)", "LexerTermLiteral.RunPass", func(i *types.Info, _ ast.Node, e ast.Expr) bool {
 			be, ok := e.(*ast.BinaryExpr)
 			if !ok || be.Op != token.EQL {
 				return false
@@ -140,7 +298,7 @@ func ruleWF1(c *Ctx) {
 			v, ok := constInt(i, be.Y)
 			return ok && v == 0 && strings.HasPrefix(exprString(be.X), "len(")
 		}, "an empty literal in a lexer rule is reported"},
-		{"class-range-order", "CharClass.RunPass", func(i *types.Info, e ast.Expr) bool {
+		{"class-range-order", "CharClass.RunPass", func(i *types.Info, _ ast.Node, e ast.Expr) bool {
 			be, ok := e.(*ast.BinaryExpr)
 			if !ok {
 				return false
@@ -149,11 +307,11 @@ func ruleWF1(c *Ctx) {
 				isField(i, be.X, "internal/ast", "CharClassItem", "To") && isField(i, be.Y, "internal/ast", "CharClassItem", "From")
 			return (f && be.Op == token.GTR) || (t && be.Op == token.LSS)
 		}, "a class range whose lower bound is above its upper bound is reported"},
-		{"list-entry-simple", "ParserTerm.postCheck", func(i *types.Info, e ast.Expr) bool {
-			return strings.Contains(exprString(e), ".Child.Type != ParserTermSimple")
+		{"list-entry-simple", "ParserTerm.postCheck", func(i *types.Info, _ ast.Node, e ast.Expr) bool {
+			return termTypeNotSimple(i, e, "Child")
 		}, "a non-simple @list entry is reported"},
-		{"list-separator-simple", "ParserTerm.postCheck", func(i *types.Info, e ast.Expr) bool {
-			return strings.Contains(exprString(e), ".Sep.Type != ParserTermSimple")
+		{"list-separator-simple", "ParserTerm.postCheck", func(i *types.Info, _ ast.Node, e ast.Expr) bool {
+			return termTypeNotSimple(i, e, "Sep")
 		}, "a non-simple @list separator is reported"},
 	}
 	for _, s := range sites {
@@ -163,7 +321,7 @@ func ruleWF1(c *Ctx) {
 			c.bad(rule, construct, "", "the function that enforced this constraint (%s) no longer exists", s.fn)
 			continue
 		}
-		call := guardedError(pk, fd, func(e ast.Expr) bool { return s.pred(info, e) })
+		call := guardedError(pk, fd, func(e ast.Expr) bool { return s.pred(info, fd, e) })
 		if call == nil {
 			c.bad(rule, construct, p.Pos(fd.Pos()), "no error is logged under the condition that detects this fault: %s no longer holds", s.what)
 			continue
@@ -321,11 +479,32 @@ func checkAliasCondition(c *Ctx, rule string) {
 		return
 	}
 	// gather all conditions guarding the call, following one helper call if the condition uses one
-	var conds []string
+	type ownedCond struct {
+		e    ast.Expr
+		defs map[types.Object]ast.Expr
+	}
+	var conds []ownedCond
+	hasAssert := false
 	par := parents(fd)
-	collect := func(e ast.Expr) {
+	fdDefs := localDefs(info, fd)
+	noteAsserts := func(n ast.Node) {
+		ast.Inspect(n, func(m ast.Node) bool {
+			if ta, ok := m.(*ast.TypeAssertExpr); ok && ta.Type != nil && typeIs(info.TypeOf(ta.Type), "internal/ast", "LexerTermLiteral") {
+				hasAssert = true
+			}
+			return true
+		})
+	}
+	var collect func(e ast.Expr, defs map[types.Object]ast.Expr, depth int)
+	collect = func(e ast.Expr, defs map[types.Object]ast.Expr, depth int) {
+		noteAsserts(e)
 		for _, cj := range conjuncts(e) {
-			conds = append(conds, exprString(cj))
+			for _, dj := range disjuncts(cj) {
+				conds = append(conds, ownedCond{dj, defs})
+			}
+			if depth >= 2 {
+				continue
+			}
 			// helper call: inline the conditions of its body
 			ast.Inspect(cj, func(n ast.Node) bool {
 				call, ok := n.(*ast.CallExpr)
@@ -334,20 +513,11 @@ func checkAliasCondition(c *Ctx, rule string) {
 				}
 				if fn := calleeFunc(info, call); fn != nil && fn.Pkg() == pk.Types {
 					if hd := p.funcDecls[fn.Origin()]; hd != nil && hd.Body != nil {
-						ast.Inspect(hd.Body, func(m ast.Node) bool {
-							if ta, ok := m.(*ast.TypeAssertExpr); ok && ta.Type != nil {
-								conds = append(conds, exprString(ta))
-							}
-							if ifs, ok := m.(*ast.IfStmt); ok {
-								for _, c2 := range conjuncts(ifs.Cond) {
-									conds = append(conds, exprString(c2))
-								}
-								for _, c2 := range disjuncts(ifs.Cond) {
-									conds = append(conds, exprString(c2))
-								}
-							}
-							return true
-						})
+						hdefs := localDefs(info, hd)
+						noteAsserts(hd.Body)
+						for _, hc := range allConds(hd.Body) {
+							collect(hc, hdefs, depth+1)
+						}
 					}
 				}
 				return true
@@ -356,21 +526,60 @@ func checkAliasCondition(c *Ctx, rule string) {
 	}
 	for q := par[calls[0]]; q != nil; q = par[q] {
 		if ifs, ok := q.(*ast.IfStmt); ok && containsNode(ifs.Body, calls[0]) {
-			collect(ifs.Cond)
+			collect(ifs.Cond, fdDefs, 0)
 			if ifs.Init != nil {
 				if as, ok := ifs.Init.(*ast.AssignStmt); ok {
-					conds = append(conds, exprString(as.Rhs[0]))
-					collect(as.Rhs[0])
+					collect(as.Rhs[0], fdDefs, 0)
 				}
 			}
 		}
 	}
-	all := strings.Join(conds, " ; ")
-	need := map[string]bool{
-		"one factor":           strings.Contains(all, "Factors) == 1") || strings.Contains(all, "Factors) != 1"),
-		"one term":             strings.Contains(all, "Terms) == 1") || strings.Contains(all, "Terms) != 1"),
-		"no cardinality (One)": strings.Contains(all, ".Card == One") || strings.Contains(all, ".Card != One"),
-		"a literal":            strings.Contains(all, "(*LexerTermLiteral)"),
+	// also the early-exit guards before the call (negated facts)
+	for _, f := range pathConds(info, par, calls[0]) {
+		collect(f.e, fdDefs, 0)
+	}
+	lenOfField := func(oc ownedCond, field string) bool {
+		be, ok := ast.Unparen(oc.e).(*ast.BinaryExpr)
+		if !ok || (be.Op != token.EQL && be.Op != token.NEQ) {
+			return false
+		}
+		for _, pr := range [][2]ast.Expr{{be.X, be.Y}, {be.Y, be.X}} {
+			v, isC := constInt(info, pr[1])
+			lc, isCall := ast.Unparen(pr[0]).(*ast.CallExpr)
+			if !isC || v != 1 || !isCall || builtinName(info, lc) != "len" || len(lc.Args) != 1 {
+				continue
+			}
+			if fv, _ := selField(info, resolveVia(info, oc.defs, lc.Args[0])); fv != nil && fv.Name() == field {
+				return true
+			}
+		}
+		return false
+	}
+	cardOne := func(oc ownedCond) bool {
+		be, ok := ast.Unparen(oc.e).(*ast.BinaryExpr)
+		if !ok || (be.Op != token.EQL && be.Op != token.NEQ) {
+			return false
+		}
+		for _, pr := range [][2]ast.Expr{{be.X, be.Y}, {be.Y, be.X}} {
+			fv, _ := selField(info, resolveVia(info, oc.defs, pr[0]))
+			k, _ := usesObj(info, pr[1]).(*types.Const)
+			if fv != nil && fv.Name() == "Card" && k != nil && k.Name() == "One" {
+				return true
+			}
+		}
+		return false
+	}
+	need := map[string]bool{"one factor": false, "one term": false, "no cardinality (One)": false, "a literal": hasAssert}
+	for _, oc := range conds {
+		if lenOfField(oc, "Factors") {
+			need["one factor"] = true
+		}
+		if lenOfField(oc, "Terms") {
+			need["one term"] = true
+		}
+		if cardOne(oc) {
+			need["no cardinality (One)"] = true
+		}
 	}
 	var missing []string
 	for k, v := range need {
@@ -552,12 +761,18 @@ func ruleWF3(c *Ctx) {
 		info := pk.TypesInfo
 		ok := false
 		ast.Inspect(fd.Body, func(n ast.Node) bool {
-			rs, isR := n.(*ast.RangeStmt)
-			if !isR {
+			var loopBody *ast.BlockStmt
+			switch x := n.(type) {
+			case *ast.RangeStmt:
+				loopBody = x.Body
+			case *ast.ForStmt:
+				loopBody = x.Body
+			}
+			if loopBody == nil {
 				return true
 			}
 			iRun, iChk := -1, -1
-			for i, s := range rs.Body.List {
+			for i, s := range loopBody.List {
 				if es, isES := s.(*ast.ExprStmt); isES && callNamed(info, es, "RunPass") != nil && iRun == -1 {
 					iRun = i
 				}
